@@ -63,6 +63,42 @@ def heap_traffic_cases(backends, rng, count):
     return cases
 
 
+def multi_loop_stage(self, ctx, st, cases):
+    """several loops in different threads on the real kernel (harness/multi_loop_smoke.c), per epoll / poll method: every
+    handler call is checked against the kernel (poll(2) on the descriptor), the owning thread and the cookie.  A search
+    stage without a model trace; a violation is appended as a pseudo-case `MLOOP <excluded methods>`."""
+    import subprocess
+    d = os.path.join(ctx.work, "mloop")
+    ok, out = vlib.cc_build(d, "multi_loop_smoke", ["multi_loop_smoke.c"], vlib.LIB_SRCS)
+    if not ok:
+        st["div"].append((0, "multi_loop_smoke does not build: " + out[-400:]))
+        return
+    runs = [("", 4, 24), ("epoll-timerfd", 4, 24), ("epoll-timerfd epoll", 3, 12), ("epoll-timerfd epoll ppoll", 3, 12)]
+    if ctx.tier != "quick":
+        runs = runs * 4
+    self.mloop_runs = getattr(self, "mloop_runs", 0)
+    for excl, nthr, np in runs:
+        env = dict(os.environ, IV_EXCLUDE_POLL_METHOD=excl, ASAN_OPTIONS="detect_leaks=1:abort_on_error=0:exitcode=97",
+                   UBSAN_OPTIONS="halt_on_error=1:exitcode=98")
+        try:
+            p = subprocess.run([os.path.join(d, "multi_loop_smoke"), str(nthr), str(np), "500" if ctx.tier == "quick" else "1500"],
+                               stdout=subprocess.PIPE, stderr=subprocess.PIPE, text=True, timeout=120, env=env)
+            why = None if p.returncode == 0 else ("rc=%d %s %s" % (p.returncode, p.stdout[-400:], p.stderr[-1500:]))
+        except subprocess.TimeoutExpired:
+            why = "the loops did not finish (hang)"
+        self.mloop_runs += 1
+        if why:
+            cases.append("MLOOP " + excl)
+            st["mres"].append(("", None))
+            st["ires"].append((why[-3000:], None))
+            if st["mon"] is not None:
+                st["mon"].append("OK")
+            st["crashes"].append((len(cases) - 1, "loops in several threads on the real kernel (multi_loop_smoke, excluded methods `%s`): %s"
+                                  % (excl, why)))
+            return
+    st["n"] += len(runs)
+
+
 CORE_LEAF_FILES = ["LeafCoreFd.v", "LeafCoreTask.v", "LeafCoreMain.v", "LeafCoreEpoll.v", "LeafCorePoll.v", "LeafCoreEvent.v",
                    "LeafCoreLists.v", "LeafCoreRaw.v"]
 
@@ -175,7 +211,19 @@ class CoreCheck(LineCheck):
         # CoreCodes2.core_code_1801)
         return any(lo <= c < hi for lo, hi in self.codes) or c in self.extra_codes or c == 1801
 
+    multi_loop = False     # run harness/multi_loop_smoke.c (loops in several threads, real kernel) as a stage of this check?
+
     def correspond(self, ctx, cases):
+        if len(cases) == 1 and cases[0].startswith("MLOOP "):
+            st = CoreCheck.correspond(self, ctx, [])
+            multi_loop_stage(self, ctx, st, [])
+            return st
+        st = self._correspond_core(ctx, cases)
+        if self.multi_loop and len(cases) > 10 and type(self).correspond is CoreCheck.correspond:
+            multi_loop_stage(self, ctx, st, cases)
+        return st
+
+    def _correspond_core(self, ctx, cases):
         st = LineCheck.correspond(self, ctx, cases)
         keep = []
         other = 0
@@ -201,10 +249,14 @@ class CoreCheck(LineCheck):
         return "core:" + (m.group(1).replace(" ", "").replace(",", "_") if m else "crash")
 
     def describe(self, case):
+        if case.startswith("MLOOP "):
+            return {"multi_loop_smoke_excluded_methods": case[6:]}
         return {"scenario": case}
 
     def distribution(self, cases):
         d = {"corpus_cases": getattr(self, "n_corpus", 0)}
+        if self.multi_loop:
+            d["multi_loop_smoke_runs_real_kernel"] = getattr(self, "mloop_runs", 0)
         for b in core_gen.BACKENDS:
             d["backend_" + b] = sum(1 for c in cases if c.startswith("B" + b))
         d["with_faults"] = sum(1 for c in cases if ";X" in c)
@@ -223,6 +275,8 @@ class CoreCheck(LineCheck):
         reader of the replay file: all shrinking of one check run shares a wall-clock budget (the extracted model needs
         seconds per try on bursts of thousands of posts; seed C09_9 kept a check busy for half an hour)"""
         import time
+        if case.startswith("MLOOP "):
+            return case
         if not hasattr(ctx, "shrink_deadline"):
             ctx.shrink_deadline = time.time() + float(os.environ.get("VERIF_SHRINK_SECONDS", "150"))
         secs = case.split(";")
@@ -259,6 +313,8 @@ class CoreCheck(LineCheck):
 
     def widen(self, ctx, case):
         out = []
+        if case.startswith("MLOOP "):
+            return out
         for b in core_gen.BACKENDS:
             out.append(re.sub(r"^B..", "B" + b, case))
         return out
@@ -356,6 +412,7 @@ class C01(CoreCheck):
 
 class C02(CoreCheck):
     pid = "C02"
+    multi_loop = True
     leaf = True
     core_leaf = True
     codes = [(200, 300), (1104, 1105)]
@@ -388,6 +445,7 @@ class C02(CoreCheck):
 
 class C03(CoreCheck):
     pid = "C03"
+    multi_loop = True
     leaf = True
     core_leaf = True
     codes = [(300, 400), (101, 102), (1101, 1103)]
